@@ -2,6 +2,7 @@ CONSTANTS
   MaxN = 4
   Stratum = "all"
   PathsMaxN = 3
+  DeferMaxN = 3
 SPECIFICATION GenSpec
 CONSTRAINT GenConstraint
 CHECK_DEADLOCK FALSE
